@@ -83,7 +83,7 @@ type pendFn struct {
 	Fn      *ssa.Function
 	BarArg  int // index into the call's Args
 	SyncArg int
-	CellArg int // index of the argument carrying the cell's address; -1: captured variable
+	CellArg int        // index of the argument carrying the cell's address; -1: captured variable
 	Cell    *ssa.Alloc // captured cell (closure form)
 }
 
